@@ -76,6 +76,40 @@ async fn delete_vs_update(net: &Net, same_day: bool, first: usize) -> Case {
     r.case("C03Case", "delete_vs_update", f, json!({"same_day": same_day, "first": first}))
 }
 
+/// history-hash shortcut: B and C took the same three days from A in one pull each (equal history
+/// hashes); B then receives a row for the middle day from D; C pulling B compares only the last day
+async fn shortcut(net: &Net) -> Case {
+    let mut r = Runner::new(net, 4).await;
+    let t = T0 + 3000;
+    r.exec(Op::Create { p: 0, x: 1, t }).await;
+    r.exec(Op::Create { p: 0, x: 2, t: t + DAY }).await;
+    r.exec(Op::Create { p: 0, x: 3, t: t + 2 * DAY }).await;
+    r.exec(Op::Pull { dst: 1, src: 0, t: t + 2 * DAY + 10 }).await;
+    r.exec(Op::Pull { dst: 2, src: 0, t: t + 2 * DAY + 11 }).await;
+    r.exec(Op::Create { p: 3, x: 4, t: t + DAY + 500 }).await;
+    r.exec(Op::Pull { dst: 1, src: 3, t: t + 2 * DAY + 20 }).await;
+    r.exec(Op::Pull { dst: 2, src: 1, t: t + 2 * DAY + 30 }).await;
+    let skipped = r.steps.last().unwrap().days.is_empty();
+    let f = r.settle(t + 3 * DAY, 5).await;
+    r.case("C03Case", "shortcut", f, json!({"last_pull_skipped_all_days": skipped}))
+}
+
+/// stale daily hash: a deletion record that names the old version removes the new one on peer 1 and
+/// leaves the new version's day unmarked; peer 1 then never takes the new version back from peer 3
+async fn stale_log(net: &Net) -> Case {
+    let mut r = Runner::new(net, 4).await;
+    let t = T0 + 3000;
+    r.exec(Op::Create { p: 1, x: 1, t }).await;
+    for d in [0, 2, 3] { r.exec(Op::Pull { dst: d, src: 1, t: t + 10 }).await; }
+    r.exec(Op::Update { p: 1, x: 1, t: t + DAY }).await;
+    r.exec(Op::Pull { dst: 3, src: 1, t: t + DAY + 10 }).await;
+    r.exec(Op::Delete { p: 0, x: 1, t: t + 3 * DAY }).await;
+    r.exec(Op::Pull { dst: 1, src: 0, t: t + 3 * DAY + 10 }).await;
+    r.exec(Op::Pull { dst: 1, src: 3, t: t + 3 * DAY + 20 }).await;
+    let f = r.settle(t + 4 * DAY, 6).await;
+    r.case("C03Case", "stale_log", f, json!({}))
+}
+
 async fn random_case(net: &Net, rng: &mut Rng, deletions: bool) -> Case {
     let n = 2 + rng.below(3) as usize;
     let mut r = Runner::new(net, n).await;
@@ -117,6 +151,8 @@ async fn main() {
     out.push(same_ms(&net, 1).await);
     out.push(cross_day(&net).await);
     out.push(double_delete(&net).await);
+    out.push(shortcut(&net).await);
+    out.push(stale_log(&net).await);
     for sd in [false, true] { for first in [0, 1] { out.push(delete_vs_update(&net, sd, first).await); } }
     for i in 0..scale(36, 700) {
         let mut r = rng.fork();
